@@ -178,11 +178,11 @@ package vuego
 
 //@ func (s *Stack) EnvMap() (r)
 //@   modifies nothing
-//@   ensures C08+C17.agree: fresh(r) && forall k string :: ((k in r) == old(envHas(s, k, len(s.stack)))) && ((k in r) ==> r[k] == old(envGet(s, k, len(s.stack))))
+//@   ensures C08+C13+C17.agree: fresh(r) && forall k string :: ((k in r) == old(envHas(s, k, len(s.stack)))) && ((k in r) ==> r[k] == old(envGet(s, k, len(s.stack))))
 //@   loop 0 invariant C17.env.bounds: 0 <= i && i <= len(s.stack) && fresh(result) && result != nil
-//@   loop 0 invariant C17.env.outer: forall k string :: ((k in result) == old(envHas(s, k, i))) && ((k in result) ==> result[k] == old(envGet(s, k, i)))
+//@   loop 0 invariant C13+C17.env.outer: forall k string :: ((k in result) == old(envHas(s, k, i))) && ((k in result) ==> result[k] == old(envGet(s, k, i)))
 //@   loop 1 invariant C17.env.bounds1: 0 <= i && i < len(s.stack) && fresh(result) && result != nil
-//@   loop 1 invariant C17.env.inner: forall k string :: (visited(k) ==> old(k in s.stack[i]) && (k in result) && result[k] == old(s.stack[i][k])) &&
+//@   loop 1 invariant C13+C17.env.inner: forall k string :: (visited(k) ==> old(k in s.stack[i]) && (k in result) && result[k] == old(s.stack[i][k])) &&
 //@       (!visited(k) ==> ((k in result) == old(envHas(s, k, i))) && ((k in result) ==> result[k] == old(envGet(s, k, i))))
 
 //@ func (s *Stack) Copy() (c)
@@ -372,6 +372,8 @@ package vuego
 //@   loop 0 invariant C03+C04.else.scan.adjacent: forall k int :: 1 <= k && k < j && k < len(nodes) ==> nodes[k].Type != html.ElementNode
 
 //@ func (v *Vue) evaluate(ctx, nodes, depth) (res, err)
+//@   assert C10+C14.attrs.private: fresh($arg1) && $arg1 != nil && (len($arg1.Attr) == 0 || fresh($arg1.Attr)) at "call evalVHtml"
+//@   assert C10+C14.attrs.private.eval: fresh($arg1) && $arg1 != nil at "call evalAttributes"
 //@   decreases maxEvalDepth + 10 - depth, 2
 //@   ensures C04+C05.balance: BALANCED(ctx)
 //@   assert C16.marked: hasAttrUpTo(node.Attr, "v-once", len(node.Attr)) && !hasAttrUpTo(node.Attr, "v-for", len(node.Attr)) ==> ctx.seen[getAttrFrom(node.Attr, "v-once-id", 0)] at "helpers.HasAttr(node, \"v-pre\")"
